@@ -19,6 +19,7 @@
 -/
 import Cog.Builder.VeneerLemmas
 import Cog.Builder.WTLemmas
+import Cog.Builder.FrameLemmas
 import Cog.Builder.Witness
 namespace Cog.Builder
 open Cog.IR
@@ -531,5 +532,71 @@ theorem C17_frame_counterexample_shared_pointer :
       = [[["y"]]] ∧
     ((getOk (fromAST wMergeRename.ss)).filter fun b => b.name == "I").map (fun b => b.options.map fun o => o.args.map (·.name))
       = [[["x"]]] := by decide
+
+
+/-! ## frame of the option rules -/
+
+/-- **Frame, option rules that store nothing** (all but `rename_arguments`, `array_to_append`,
+    `map_to_index`): the builders are the same, in the same order; nothing but the options of a
+    builder changes; the options the selector rejected are all still there, unchanged, in their
+    relative order; and every other option is what the action returned for it (`Expands`). -/
+theorem C17_option_frame (ss : Schemas) (sel : OSelC) (rule : ORule) (hs : rule.storesNothing = true)
+    (st st' : St) (h : applyORule ss sel rule st = .ok st') :
+    All2 (fun b b' =>
+        b'.for_ = b.for_ ∧ b'.pkg = b.pkg ∧ b'.name = b.name ∧ b'.properties = b.properties ∧
+        b'.constructor = b.constructor ∧ b'.factories = b.factories ∧
+        (b.options.filter fun o => !sel.matches b o).Sublist b'.options ∧
+        Expands ss sel rule b b.options b'.options)
+      st.builders st'.builders := by
+  refine All2.imp ?_ (applyORule_frame ss sel rule hs st st' h)
+  rintro b b' ⟨r, rfl, hexp⟩
+  exact ⟨rfl, rfl, rfl, rfl, rfl, rfl, hexp.unselected_sublist, hexp⟩
+
+/-- the same for *every* option rule, on what `cog inspect` shows (pointer identities aside) -/
+def C17_option_frame_full : Prop :=
+  ∀ (ss : Schemas) (sel : OSelC) (rule : ORule) (st st' : St), applyORule ss sel rule st = .ok st' →
+    All2 (fun b b' => ((b.options.filter fun o => !sel.matches b o).map Opt.content).Sublist (b'.options.map Opt.content))
+      st.builders st'.builders
+
+/-- Bool version of `All2` for evaluating witnesses -/
+def all2b {α β : Type} (q : α → β → Bool) : List α → List β → Bool
+  | [], [] => true
+  | a :: as, b :: bs => q a b && all2b q as bs
+  | _, _ => false
+
+theorem all2b_of_All2 {α β : Type} {P : α → β → Prop} {q : α → β → Bool} (hq : ∀ a b, P a b → q a b = true) :
+    ∀ {l : List α} {l' : List β}, All2 P l l' → all2b q l l' = true
+  | [], [], _ => rfl
+  | a :: as, b :: bs, h => by simp [all2b, hq a b h.1, all2b_of_All2 hq h.2]
+  | [], _ :: _, h => by simp [All2] at h
+  | _ :: _, [], h => by simp [All2] at h
+
+/-- after `merge_into`, `rename_arguments` selected for builder `D`'s option `x` also renames the
+    argument of builder `I`'s option `x` (witness `wMergeRename`, replayed on the real code) -/
+theorem C17_option_frame_counterexample : ¬ C17_option_frame_full := by
+  intro hfull
+  let w := wMergeRename
+  let st0 := St.renumber (getOk (fromAST w.ss)) 1
+  let st1 := getOk (applyBRules w.ss [("p", BRule.mergeInto "D" "I" "inner" [] [])] st0)
+  let sel : OSelC := .byName "p" "D" ["x"]
+  let rule : ORule := .renameArguments (.byName "D.x") ["y"]
+  let st2 := getOk (applyORule w.ss sel rule st1)
+  have h2 : applyORule w.ss sel rule st1 = .ok st2 := eq_ok_getOk _ (by decide)
+  have hall := hfull w.ss sel rule st1 st2 h2
+  let proj : Opt → List String := fun o => o.args.map (·.name)
+  have hb := all2b_of_All2 (q := fun b b' =>
+      decide (((b.options.filter fun o => !sel.matches b o).map proj).Sublist (b'.options.map proj))) (by
+        intro b b' hs
+        have := hs.map (fun o : Opt => o.args.map (·.name))
+        simp only [List.map_map] at this
+        have hc : ∀ o : Opt, ((fun o : Opt => o.args.map (·.name)) ∘ Opt.content) o = proj o := by
+          intro o; simp [Opt.content, Opt.mapCells, proj]
+        rw [List.map_congr_left (fun o _ => hc o), List.map_congr_left (fun o _ => hc o)] at this
+        exact decide_eq_true this) hall
+  have hno : all2b (fun b b' =>
+      decide (((b.options.filter fun o => !sel.matches b o).map proj).Sublist (b'.options.map proj)))
+      st1.builders st2.builders = false := by decide
+  rw [hno] at hb
+  exact absurd hb (by simp)
 
 end Cog.Builder
